@@ -190,3 +190,17 @@ Example c10_example_mutex :
   | None => False
   end.
 Proof. vm_compute. split; reflexivity. Qed.
+
+(* ---------------------------------------------------------------- the executed predicate is the specification *)
+From MV Require Import C10.Check C10.CheckSound.
+
+(* Whatever output the boolean checker (run on every case of the correspondence, on the implementation's
+   output) accepts satisfies the Prop-level promise of Spec.v. *)
+Theorem c10_checker_sound : forall kf sh eps out,
+  batches_okb kf sh eps out = true -> Forall2 (batch_ok kf sh) eps out.
+Proof. exact batches_okb_sound. Qed.
+Print Assumptions c10_checker_sound.
+
+Theorem c10_checker_sound_aggregate : forall sh es c, agg_okb sh es c = true -> agg_ok sh es c.
+Proof. exact agg_okb_sound. Qed.
+Print Assumptions c10_checker_sound_aggregate.
